@@ -174,7 +174,7 @@ func schemas() []named {
 			types.Slice[any](types.Map(types.String(), types.Record(types.String(), types.Union([]any{types.Nil(), types.Slice[any](types.Any())}))))},
 		{"Object{a:Tuple(Set,DU)}", "nested", types.Object(core.ObjectSchema{"a": types.Tuple(types.Set[string](types.String()), types.DiscriminatedUnion("t", []any{obj}))})},
 	}
-	return out
+	return append(out, structSchemas()...) // structs.go: object flavours / Struct / FromStruct over embedding layouts, top level and nested
 }
 
 func deep(n int) any {
@@ -295,6 +295,14 @@ func run(c hx.Config) error {
 	// ---- x: cross product ----
 	vals := values()
 	for _, v := range extraVals() {
+		rawVals[v.name] = true
+		vals = append(vals, v)
+	}
+	nStructs := 14
+	if c.Thorough() {
+		nStructs = 120
+	}
+	for _, v := range genStructVals(r, nStructs) { // structs.go: struct inputs built type-directedly (embedding, unexported fields, typed nils)
 		rawVals[v.name] = true
 		vals = append(vals, v)
 	}
